@@ -200,6 +200,28 @@ class Sim(object):
         for h in self.on_deliver_hooks:
             h(frm, to, gen, message)
 
+    def stop_node(self, name, clean=True):
+        """Process `name` goes away (clean shutdown or kill); its connections die."""
+        obj = self.nodes.pop(name, None)
+        if obj is None:
+            return False
+        self.net.endpoint_gone(name)
+        if clean:
+            CLOCK.active = name
+            try:
+                obj._doDestroy()
+            except Exception:
+                pass
+        self.counters['stops'] += 1
+        return True
+
+    def restart_node(self, name, others=None):
+        if name in self.nodes:
+            return False
+        self.start_node(name, others)
+        self.counters['restarts'] += 1
+        return True
+
     # ---------------------------------------------------------------- steps
     def live(self):
         return [n for n in self.voters + self.ro if n in self.nodes]
